@@ -19,3 +19,20 @@ __CPROVER_ensures(__tmcg_thrown == 0 ==> self->l_e == ell_e && self->l_e_nizk ==
                   && self->skc != 0 && self->skc->l_e == ell_e && self->skc->l_e_nizk == ell_e * 2UL
                   && self->F_size == fieldsize && self->G_size == subgroupsize && self->com != 0)
 //@ end
+
+//@ function GrothSKC__CheckGroup
+//@ contract
+__CPROVER_requires(__CPROVER_is_fresh(self, sizeof(*self)) && __CPROVER_is_fresh(self->com, sizeof(PedersenCommitmentScheme)))
+__CPROVER_assigns()
+/* C06 (delegating wrapper): exactly the verdict of the commitment scheme's own group check (C06_pedersen) */
+__CPROVER_ensures(__CPROVER_return_value == PCG(self->com))
+//@ end
+
+//@ function GrothVSSHE__CheckGroup
+//@ contract
+__CPROVER_requires(__CPROVER_is_fresh(self, sizeof(*self)) && __CPROVER_is_fresh(self->skc, sizeof(GrothSKC)) && __CPROVER_is_fresh(self->skc->com, sizeof(PedersenCommitmentScheme)))
+__CPROVER_assigns()
+/* C06 (delegating wrapper): |q| covers both challenge lengths (Theorem 5 of [Gr05]) and the commitment scheme of the
+ * inner argument passes its group check -- and nothing else: the object's own p, q, g, h are NOT examined here */
+__CPROVER_ensures(__CPROVER_return_value == (UF(bits)(V(self->q)) >= self->l_e && UF(bits)(V(self->q)) >= self->l_e_nizk && PCG(self->skc->com)))
+//@ end
